@@ -478,7 +478,13 @@ def run_tier(tier, t0):
                     continue
                 for a in range(start, start + win, 10000):
                     blocks.append(("itow", wno, a, a + 10000))
-        itow_desc = "every millisecond of three 60 s windows (week start, mid-week, the last 60 s before the week rolls over incl. itow >= 604,800,000) x week numbers {0,2300,5000}"
+        for k in range(0, 20):  # float products change exponent here: 2 s from every power of two (seconds)
+            a = (1 << k) * 1000
+            if 18000 <= a < WEEK_MS:
+                blocks.append(("itow", 2300, max(18000, a - 500), a + 2000))
+        for a in (100000, 1000000, 10000000, 100000000):
+            blocks.append(("itow", 0, a - 500, a + 1500))
+        itow_desc = "every millisecond of 2.5 s windows at each power of two / of ten seconds, and of three 60 s windows (week start, mid-week, the last 60 s before the week rolls over incl. itow >= 604,800,000) x week numbers {0,2300,5000}"
     else:
         chunk = 2000000
         for a in range(18000, WEEK_MS + 18000, chunk):
